@@ -59,6 +59,16 @@ def at4_messages(tier):
         yield "GroupStatusMessage", gs.GroupStatusMessage([gsd(set_point=s)])
     for n in range(0, 17):
         yield "GroupStatusMessage", gs.GroupStatusMessage([dataclasses.replace(bases[i % 3], group_number=i) for i in range(n)])
+    if tier == "thorough":
+        # full products of the fields that share a byte on the wire
+        for cm, d in itertools.product(gs.GroupControlMethod, range(0, 101)):
+            yield "GroupStatusMessage", gs.GroupStatusMessage([gsd(control_method=cm, damper_percentage=d)])
+        for ba, tu, sp_ in itertools.product(gs.SensorBatteryStatus, [False, True], range(0, 64)):
+            yield "GroupStatusMessage", gs.GroupStatusMessage([gsd(battery_status=ba, supports_turbo=tu, set_point=sp_)])
+        for t, sp in itertools.product(range(-500, 1540), [False, True]):
+            yield "GroupStatusMessage", gs.GroupStatusMessage([gsd(temperature=t / 10, spill_active=sp)])
+        for g, ps in itertools.product(range(16), gs.GroupPowerState):
+            yield "GroupStatusMessage", gs.GroupStatusMessage([gsd(group_number=g, power_state=ps)])
     yield "GroupStatusRequest", gs.GroupStatusRequest()
     # 4 AcControl: full product
     sps = [None, ac.AcIncreaseDecrease.INCREASE, ac.AcIncreaseDecrease.DECREASE] + [ac.AcSetPointValue(v) for v in range(0, 64)]
@@ -80,6 +90,11 @@ def at4_messages(tier):
         yield "AcStatusMessage", st.AcStatusMessage([asd(error_code=e)])
     for n in range(0, 17):
         yield "AcStatusMessage", st.AcStatusMessage([asd(ac_number=i % 4, set_point=i) for i in range(n)])
+    if tier == "thorough":
+        for sp, ti, v in itertools.product([False, True], [False, True], range(64)):
+            yield "AcStatusMessage", st.AcStatusMessage([asd(spill_active=sp, timer_set=ti, set_point=v)])
+        for t, e in itertools.product(range(-500, 1540, 7), (0, 1, 255, 256, 0xFFFF)):
+            yield "AcStatusMessage", st.AcStatusMessage([asd(temperature=t / 10, error_code=e)])
     yield "AcStatusRequest", st.AcStatusRequest()
     # 7/8 timers
     def states(mod):
@@ -186,6 +201,15 @@ def at5_messages(tier):
         yield "ZoneStatusMessage", W(zs.ZoneStatusMessage([zsd(set_point=(v + 100) / 10)]))
     for n in range(0, 17):
         yield "ZoneStatusMessage", W(zs.ZoneStatusMessage([zsd(zone_number=i, damper_percentage=i * 5) for i in range(n)]))
+    if tier == "thorough":
+        for z, ps in itertools.product(range(16), zs.ZonePowerState):
+            yield "ZoneStatusMessage", W(zs.ZoneStatusMessage([zsd(zone_number=z, power_state=ps)]))
+        for cm, d in itertools.product(zs.ZoneControlMethod, range(0, 101)):
+            yield "ZoneStatusMessage", W(zs.ZoneStatusMessage([zsd(control_method=cm, damper_percentage=d)]))
+        for t, sp, ba in itertools.product(range(-500, 1501), [False, True], zs.SensorBatteryStatus):
+            yield "ZoneStatusMessage", W(zs.ZoneStatusMessage([zsd(temperature=t / 10, spill_active=sp, battery_status=ba)]))
+        for v, hs in itertools.product(range(0, 251), [True]):
+            yield "ZoneStatusMessage", W(zs.ZoneStatusMessage([zsd(set_point=(v + 100) / 10, temperature=None)]))
     yield "ZoneStatusRequest", W(zs.ZoneStatusRequest())
     sps = [None] + [(v + 100) / 10 for v in (range(0, 251) if full else range(0, 251, 4))]
     for a, p, m, f in itertools.product(range(16), ac.AcPowerControl, ac.AcModeControl, ac.AcFanSpeedControl):
@@ -212,6 +236,14 @@ def at5_messages(tier):
         yield "AcStatusMessage", W(st.AcStatusMessage([asd(error_code=e)]))
     for n in range(0, 17):
         yield "AcStatusMessage", W(st.AcStatusMessage([asd(ac_number=i, set_point=20.0 + i) for i in range(n)]))
+    if tier == "thorough":
+        for fl in itertools.product([False, True], repeat=4):
+            for t in range(-500, 1501, 3):
+                yield "AcStatusMessage", W(st.AcStatusMessage([asd(turbo_active=fl[0], bypass_active=fl[1], spill_active=fl[2], timer_set=fl[3],
+                                                                  temperature=t / 10)]))
+            for v in range(0, 251):
+                yield "AcStatusMessage", W(st.AcStatusMessage([asd(turbo_active=fl[0], bypass_active=fl[1], spill_active=fl[2], timer_set=fl[3],
+                                                                  set_point=(v + 100) / 10)]))
     yield "AcStatusRequest", W(st.AcStatusRequest())
     stt = [ts.AcTimerState(d, h, m) for d in (False, True) for h in (range(24) if full else (0, 1, 12, 23)) for m in (0, 1, 30, 59)]
     for cls, data, name in ((tc.AcTimerControlMessage, tc.AcTimerControlData, "AcTimerControlMessage"),
